@@ -46,6 +46,7 @@ json generate(uint64_t seed, uint64_t idx, int tier)
 	}
 	plan["schemas"] = json::array({schema});
 	plan["knobs"] = {{"poison", true}, {"fill", r.chance(1, 2) ? 0xA5 : 0xFF}};
+	plan["world"] = {{"fs", json::array({{{"path", "/a"}, {"kind", "dir"}}, {{"path", "/b"}, {"kind", "dir"}}, fs_file("/a/f.conf", "# in /a\n"), fs_file("/b/f.conf", "# in /b\n")})}};
 	int flags = r.chance(1, 3) ? F_COMMENTS : 0;
 	json steps = json::array();
 	ApiGen ag;
@@ -179,6 +180,18 @@ json generate(uint64_t seed, uint64_t idx, int tier)
 				// a print filter installed on one instance only
 				json s = step(cl, "setprintfilter", 0);
 				s["at"] = json::array({json::array({"inst", cl})});
+				s["owner"] = 0;
+				steps.push_back(s);
+				continue;
+			}
+			if (k >= 48 && k < 56) {
+				// a search directory added to one instance is that instance's; the sibling looking a file up must not find it there
+				json s = step(cl, k < 52 ? "addpath" : "searchpath", 0);
+				s["at"] = json::array({json::array({"inst", cl})});
+				if (k < 52)
+					s["dir"] = "/a";
+				else
+					s["name"] = "f.conf";
 				s["owner"] = 0;
 				steps.push_back(s);
 				continue;
